@@ -137,7 +137,7 @@ func newC01env(rep *vh.Report, cfg c01cfg, known []*msgInfo) (*c01env, error) {
 	return e, nil
 }
 
-var c01writerCounter int
+var c01writerCounter, c01knownCounter int
 
 // check writes one frame through the real writer, compares with the reference image,
 // reads it back through a fresh real reader and compares field for field.
@@ -229,7 +229,18 @@ func (e *c01env) checkKnown(r *vh.RNG, mi *msgInfo) {
 			ff.Message = val.Interface().(message.Message)
 		}
 		e.w.reset()
-		if err := e.fw.Write(fr); err != nil {
+		fwr := e.fw
+		c01knownCounter++
+		if c01knownCounter%3 == 1 {
+			// a writer that carries the deprecated options of its own WriteMessage (a key, a link id, ids): Write() emits the
+			// frame it is given - its own signature block included - whatever they are
+			kw := &frame.Writer{ByteWriter: e.w, DialectRW: e.drw, OutVersion: frame.V2, OutSystemID: 200, OutComponentID: 201, OutSignatureLinkID: 202, OutKey: mkKey([]byte("a key of the writer's own, 32 b.."))}
+			if kw.Initialize() == nil {
+				fwr = kw
+				e.rep.Count("frames_written_through_writers_with_deprecated_options", 1)
+			}
+		}
+		if err := fwr.Write(fr); err != nil {
 			e.rep.Violation(c01key(e.cfg, "message", "bytes"), "writer refused a frame with a dialect message: "+err.Error(), wit())
 			return
 		}
